@@ -14,11 +14,11 @@ NA = {
 }
 CHECKS = {
  "C08": dict(level="exploration", ref="6/C08",
-   text="Seeded search over disk delivery schedules, operation histories on a shared lazy handle and injected storage faults; every lazy result is compared three ways (lazy, in-memory, disk image / independent sample-table expansion). Sampling, not enumeration: a clean batch is evidence, not proof.",
+   text="Seeded search over disk delivery schedules, operation histories on a shared lazy handle and injected storage faults; every lazy result is compared three ways (lazy, in-memory, disk image / independent sample-table expansion). Two tool worlds cover the anchors outside the library: the segmenter's functions (single, multiplexed, lazy-write) and mp4ff-crop's cropMP4 run from a lazily decoded file on a SimDisk handle and from the fully decoded file; outputs must be byte-identical and satisfy the independent conservation / prefix oracles. Sampling, not enumeration: a clean batch is evidence, not proof.",
    note="Trusts the reference walker/demuxer in vsim/ref (written from ISO/IEC 14496-12, no mp4ff code) and the Go runtime; corpus files plus byte-surgery layout variants are the only file shapes; only contract-legal reader/writer behaviour is injected.",
    technique="deterministic simulation: SimDisk delivery/fault schedules + op histories vs ground-truth bytes, seeded, replayable, minimised"),
 }
-SETUP_TARGETS = "vsim race crop segmenter resegmenter combine encrypt decrypt"
+SETUP_TARGETS = "vsim race crop segmenter resegmenter combine encrypt decrypt addsidx"
 CHECKS["C02"] = dict(level="fault_enumeration", ref="6/C02",
    text="For each sampled node the write-failure points of Encode are enumerated completely (every write op k, every write boundary -1/0/+1 as device-full budget, every slice-writer shortfall d in 1..64) against the first clean encoding as model; histories of Size/Info/Encode/EncodeSW are seeded. Nodes and histories are sampled; fault points per node are enumerated.",
    note="Objects are nodes of decoded corpus files and packager-built productions only; EncodeSW success = nil error and nil accumulated error; objects with separately written (lazy) mdat payload excluded by the library's documented design; reference size walker vsim/ref trusted.",
@@ -40,7 +40,7 @@ CHECKS["C19"] = dict(level="exploration", ref="6/C19",
    note="This property has no fault or schedule dimension; the simulator contributes the seeded history search, replay/minimisation and the transport round trip. Parameter sets are fixed public vectors; expectations for handler/media header come from ISO/IEC 14496-12/-30.",
    technique="deterministic simulation: seeded API-history search vs reference model of the track list + transport round trip")
 CHECKS["C12"] = dict(level="exploration", ref="6/C12",
-   text="Seeded search over producer histories and delimiter modes (styp, raw sidx v0/v1 with first_offset, raw mfra + ISM flag on a seekable simulated disk incl. seek errors, none, start-on-moof), decode path/mode/delivery, and UpdateSidx/Encode histories; grouping is compared with the producer's emission log, re-encoded bytes with the emitted units, and the index with positions and durations found independently in the output bytes.",
+   text="Seeded search over producer histories and delimiter modes (styp, raw sidx v0/v1 with first_offset, raw mfra + ISM flag on a seekable simulated disk incl. seek errors, none, start-on-moof), decode path/mode/delivery, and UpdateSidx/Encode histories; grouping is compared with the producer's emission log, re-encoded bytes with the emitted units, and the index with positions and durations found independently in the output bytes. A second world pushes the same emitted streams through examples/add-sidx's run() (seeded flags) and applies the fragment-bytes and index oracles to the file it writes.",
    note="Pure delimiter modes only (precedence between mixed delimiters is not defined by the statement); reference walker/demuxer vsim/ref trusted; reference_ID and earliest_presentation_time values not constrained by the statement.",
    technique="deterministic simulation: unit-stream state machine driven by a producer log + seekable SimDisk; conservation/order of moof-mdat pairs and index tiling vs independent walk")
 CHECKS["C06"] = dict(level="exploration", ref="6/C06",
